@@ -236,6 +236,14 @@ func init() {
 		}
 		return BSlice{arr: arr, off: zero64, len: n, cap: n}
 	}
+	harnessAPI["verifBytesUF"] = func(ex *Exec, fn *ssa.Function, a []Value) Value {
+		// concrete length, opaque (uninterpreted) contents
+		name := ex.freshName(argStr(ex, a[0]))
+		n := u64(uint64(argInt(ex, a[1])))
+		arr := newUFArr(name, n)
+		ex.nondet = append(ex.nondet, NondetRec{Name: name, Kind: "bytes", Len: n, Arr: &ByteArr{size: n, top: arr.top}})
+		return BSlice{arr: arr, off: zero64, len: n, cap: n}
+	}
 	harnessAPI["verifBytesN"] = func(ex *Exec, fn *ssa.Function, a []Value) Value {
 		name := ex.freshName(argStr(ex, a[0]))
 		n := argInt(ex, a[1])
@@ -267,9 +275,9 @@ func init() {
 		ex.Assert(term.Eq(x.len, y.len), label+"/len")
 		// after the assert, lengths are equal on this path
 		var c *term.T
-		if x.len.IsConst() && x.len.C <= 4096 {
+		if x.len.IsConst() && x.len.C <= 48 {
 			c = ex.bytesEqConcreteLen(x, y, x.len.C)
-		} else if y.len.IsConst() && y.len.C <= 4096 {
+		} else if y.len.IsConst() && y.len.C <= 48 {
 			c = ex.bytesEqConcreteLen(x, y, y.len.C)
 		} else {
 			k := term.Sym(ex.freshName("sk."+label), 64)
